@@ -32,7 +32,7 @@ ENCODED = [
 ]
 BOUNDS = {
     "quick": "membership: sample sizes (n1,n2) in {1..3}^2 with n1+n2<=5, 1-D and 2-D symbolic points; distance: m<=4 points, every "
-             "0/1 membership pattern covering all indices, symbolic matrix; NNDVI: N<=4 batches, sampling_times<=3",
+             "0/1 membership pattern covering all indices, symbolic matrix; NNDVI: N<=4 batches, sampling_times<=3, plus N<=3 with an undefined (NaN) quantile at one step",
     "thorough": "membership n1+n2<=6; distance m<=5",
 }
 OUTSIDE = ("that the adjacency matrix is the k-nearest-neighbour relation: sklearn's compiled neighbour search is not encodable "
@@ -62,7 +62,9 @@ def _row_eq(a, b):
     return all(bool(x == y) for x, y in zip(a, b))
 
 
-def model_unique(data, axis=0, return_inverse=False):
+def model_unique(data, axis=None, return_inverse=False):
+    if axis != 0:
+        raise AssertionError(f"rows are de-duplicated with axis=0 (got axis={axis!r})")
     rows = [list(r) for r in np.asarray(data, dtype=object)]
     order = []  # indices into rows, sorted, first occurrence of each distinct row
     for i, r in enumerate(rows):
@@ -200,9 +202,8 @@ def body_distance(ctx, m, v1, v2):
 def body_nndvi(ctx, N, sampling_times, nan_at=None):
     from menelaus.data_drift import nndvi as M
 
-    with DRIVERS["NNDVI"](ctx, rows=2, dim=1) as drv:
+    with DRIVERS["NNDVI"](ctx, rows=2, dim=1, sampling_times=sampling_times) as drv:
         d = drv.det
-        d.sampling_times = sampling_times
         del d._compute_drift_threshold  # use the real threshold computation
         rec = {"perm": [], "fit": [], "ppf": []}
         step = [0]
